@@ -36,12 +36,13 @@ ANCHORS = [
     "stereomolgraph.algorithms.isomorphism:_stereo_change_feasibility",
 ]
 REQUIRED_ANCHORS = ANCHORS
-REQUIRED = ["oracle_equal", "oracle_unequal", "cross_class_pairs", "mutation_pairs", "independent_pairs", "with_placeholder", "wl_hard_pairs", "large_pairs"]
+REQUIRED = ["oracle_equal", "oracle_unequal", "cross_class_pairs", "mutation_pairs", "independent_pairs", "with_placeholder", "wl_hard_pairs", "large_pairs", "switch_pairs"]
 
 
 def gen_cases(ctx):
     rng = ctx.rng
     yield from _regular_pairs(ctx, rng)
+    yield from _switch_pairs(ctx, rng)
     n = ctx.n(12000, 250000)
     big = (4, 12) if ctx.tier == "quick" else (4, 24)
     for i in range(n):
@@ -115,6 +116,34 @@ def _regular_pairs(ctx, rng):
         b = a if i // 4 % 4 == 0 else (gen.two_switch(rng, a) or a)
         b = sem.pg_relabel(b, gen.random_bijection(rng, b))
         yield {"kind": "wl-hard", "cls": cls, "a": pg_to_json(a), "b": pg_to_json(b), "mut": None, "bseed": rng.randrange(1 << 30)}
+
+
+def _switch_pairs(ctx, rng):
+    """small irregular graphs (6-10 atoms, one or two elements, edge density 0.25-0.5; colour refinement usually gives
+    every atom its own colour) against a 2-switch of themselves: same degrees, same labels, almost the same refined
+    colours - whether they are isomorphic is decided by the search alone"""
+    for i in range(ctx.n(32000, 400000)):
+        cls = CLASS_NAMES[0] if i % 2 == 0 else CLASS_NAMES[i % 4]
+        n = rng.randint(6, 10)
+        ids = gen.make_ids(rng, n, "range")
+        a = sem.pg_empty(cls)
+        two = rng.random() < 0.5
+        for x in ids:
+            a["atoms"][x] = {"atom_type": rng.choice([6, 7]) if two else 6}
+        dens = rng.uniform(0.25, 0.5)
+        for p in range(n):
+            for q in range(p + 1, n):
+                if rng.random() < dens:
+                    a["bonds"][frozenset((ids[p], ids[q]))] = {}
+        if len(a["bonds"]) < 3:
+            continue
+        if cls in STEREO and max(len(v) for v in sem.pg_neighbors(a).values()) > 5:
+            continue  # (the stereo classes refine over all k! neighbour orders of an atom without descriptor)
+        b = gen.two_switch(rng, a)
+        if b is None:
+            continue
+        b = sem.pg_relabel(b, gen.random_bijection(rng, b))
+        yield {"kind": "switch", "cls": cls, "a": pg_to_json(a), "b": pg_to_json(b), "mut": None, "bseed": rng.randrange(1 << 30)}
 
 
 def _specified(pg):
@@ -208,7 +237,7 @@ def check_case(ctx, case):
     )
     ctx.case((kind, case["mut"], sem.canon_key(a), sem.canon_key(b)), nontrivial)
     ctx.count("oracle_equal" if truth else "oracle_unequal")
-    ctx.count("mutation_pairs" if kind == "mut" else "wl_hard_pairs" if kind == "wl-hard" else "independent_pairs")
+    ctx.count("mutation_pairs" if kind == "mut" else "wl_hard_pairs" if kind == "wl-hard" else "switch_pairs" if kind == "switch" else "independent_pairs")
     if any(None in d[1] for d in descs):
         ctx.count("with_placeholder")
     if len(a["atoms"]) >= 20:
